@@ -44,6 +44,7 @@ type FuncCtx struct {
 	ghostSkipped map[string]string // ghost blocks skipped because a local they name does not exist (message)
 	rename     map[string]string // contract-local name -> current name of the renamed local (recovered, see recoverRename)
 	openChans  map[string]bool // channel terms read from fields declared openchan
+	timerChans map[string]bool // channel terms read from the C field of a *time.Timer
 	fn         *ssa.Function
 	fc         *FuncContract
 	pc         *PkgContracts
@@ -1594,6 +1595,12 @@ func (fx *FuncCtx) execUnOp(st *State, in *ssa.UnOp) {
 				first := x.L.Path
 				if i := strings.Index(first, "."); i >= 0 {
 					first = first[:i]
+				}
+				if nt := namedOf(x.L.Root); nt != nil && nt.Obj().Pkg() != nil && nt.Obj().Pkg().Path() == "time" && nt.Obj().Name() == "Timer" && first == "C" {
+					if fx.timerChans == nil {
+						fx.timerChans = map[string]bool{}
+					}
+					fx.timerChans[v.C[0]] = true
 				}
 				cls, _ := fx.eng.fieldClass(namedOf(x.L.Root), first)
 				if cls == "nonnilchan" || cls == "openchan+nonnil" {
